@@ -112,6 +112,7 @@ fn gen(seed: u64, idx: u64, _tier: Tier) -> Plan {
         }
         t += n as u64 * spacing + *rng.pick(&[300u64, 5_000, 40_000, 150_000]);
     }
+    wall_steps(&mut rng, &mut plan);
     let last = plan.last_step_us();
     plan.world.faults_until_ms = last / 1000 + 1;
     plan.world.horizon_ms = last / 1000 + 1100;
